@@ -72,6 +72,7 @@ impl ParseData for FromVariantOptions {
 
     fn validate_body(&self, errors: &mut crate::error::Accumulator) {
         self.base.validate_body(errors);
+        self.base.validate_tuple_struct(false, errors);
     }
 }
 
